@@ -682,7 +682,7 @@ KNOWN_FAMILIES = ("control-callback-after-violation", "processing-after-close-fr
 
 def report_oracle_problems(ck, fw, case, res, probs):
     for key, what in probs:
-        if fw.endswith("/nvx") and not any(x in key for x in KNOWN_FAMILIES):
+        if fw.endswith("/nvx") and not any(x in key for x in KNOWN_FAMILIES) and key != ws_recv.CODEC_ERROR_KEY:
             key = "nvx/" + key          # seen with the native validator / masker only: its own key
         ck.bump("oracle_problem:" + key)
         ck.violation(f"{key}", f"[{fw}] {what}", {"fw": fw, "case": case, "observed": res, "oracle": "rfc_judge"}, found_input=True)
@@ -699,7 +699,10 @@ def run(ck):
         "xor_spec (its equality with the four maskers is C15); timers, traffic statistics, auto-ping bookkeeping and the "
         "asyncio receive queue are not modelled (queue: covered by the aio correspondence runs)",
         "oracle: permessage-deflate decompressor is a Section variable (codec) in the theorems and a replay tape of the real "
-        "zlib outputs in the correspondence run",
+        "zlib outputs in the correspondence run; streams the real codec rejects (zlib.error on invalid compressed data, which the "
+        "independent oracle's inflater rejects too) have no model answer: exactly those runs, recognised by the observed escaped "
+        "codec error, are left out of the model comparison and of the segmentation comparison and reported under "
+        "pmc/invalid-compressed-data/codec-error-escapes-dataReceived",
         "translator translators/ws_consts.py (ast + import) emits every integer comparison of the receive path and "
         "CLOSE_STATUS_CODES_ALLOWED into coq/Gen/WsConsts.v; trusted to emit what it reads, fails closed on a changed structure",
         "independent oracle: ws_recv.rfc_judge (RFC 6455 section 5 transcription, CPython's strict utf-8 codec, real zlib)",
@@ -848,7 +851,9 @@ def run(ck):
                                       ("closed" if any(e[0] == "sendclose" for e in r["events"]) else "open")))
             probs = ws_recv.check_against_rfc(c, r)
             report_oracle_problems(ck, fw, c, r, probs)
-            if not c.get("burst"):
+            if not c.get("burst") and not ws_recv.codec_rejected(c, r):
+                # (runs in which the real decompressor raised on invalid compressed data are reported above under their own
+                # key; they take no part in the segmentation comparison: how often it raises depends on the reads)
                 groups.setdefault(m, []).append((c, r))
         for ib, io in burst_of.items():
             ck.bump("burst_runs")
@@ -872,7 +877,7 @@ def run(ck):
         srng.shuffle(idx)
         take = (300 if nvx else 500) if quick else 2500
         for i in idx[:take]:
-            if sum(len(x) for x in cases[i]["chunks"]) <= 1200:
+            if sum(len(x) for x in cases[i]["chunks"]) <= 1200 and not ws_recv.codec_rejected(cases[i], results[i]):
                 model_cases.append((fw, cases[i], results[i]))
         for c, r in list(zip(cases, results))[:2]:
             ck.sample({"fw": fw, "case": c, "observed": r})
